@@ -32,6 +32,10 @@ INFLIGHT = ("command", "response_future", "_partial_data", "_partial_missing", "
 
 def check(ctx: Ctx, rep: Report):
     rep.rule("C06.R1", "in-flight state is bound and the transport written only inside the locked region (who-may-call)", 8)
+    rep.rule("C06.R9", "the transport is written only by _send_request, inside the locked region (callbacks do not transmit)", 2)
+    from .proto import only_send_request_transmits as _shared_C06_R9, proto_classes as _pcs
+    for _ci in _pcs(ctx):
+        _shared_C06_R9(ctx, rep, "C06.R9", _ci)
     rep.rule("C06.R2", "acquire/release pairing on every exit of send_request and TcpInverterProtocol.close", 20)
     rep.rule("C06.R3", "the lock is released before every recursive retry and nothing is sent in between", 3)
     rep.rule("C06.R4", "an unlocked transport close in task context follows a lock-held region without an intervening suspension", 4)
